@@ -2,6 +2,7 @@ package main
 
 import (
 	"go/ast"
+	"go/constant"
 	"go/types"
 	"sort"
 
@@ -173,4 +174,8 @@ func endsInPanic(info *types.Info, body []ast.Stmt) bool {
 	}
 	_, isB := info.Uses[id].(*types.Builtin)
 	return isB && id.Name == "panic"
+}
+
+func constantInt64(cst *types.Const) (int64, bool) {
+	return constant.Int64Val(cst.Val())
 }
